@@ -253,6 +253,10 @@ def finish(ctx: Context, module) -> int:
         if rc == 0:
             rc = 1
     write_evidence(ctx, nviol, nknown)
+    if nviol:
+        # confirmed (replayed) violations decide the verdict even if some worker also hit
+        # a harness error (usually a consequence of the same broken code)
+        return 1
     return rc
 
 
